@@ -166,6 +166,15 @@ Proof. intros t m. unfold gen_constraints_dense, gen_constraints_sparse, C11_con
   destruct (String.eqb t "state"), (String.eqb t "povm"), (String.eqb t "gate"), (String.eqb t "mprocess"); split; reflexivity. Qed.
 Print Assumptions gen_constraints_eq.
 
+(* ---- the estimators' wiring: one configure-and-optimise per data set, collected in order (the regenerated definition exists only when
+   the source has exactly that loop shape; a shortcut that returns something else than the optimiser's value, a `continue`, a conditional
+   append is rejected by the translator) *)
+Theorem gen_estimate_sequence_eq : forall (D V : Type) (co : D -> V) (l : list D),
+  gen_estimate_sequence co l = C11_estimate_sequence co l /\ gen_cvx_estimate_sequence co l = C11_estimate_sequence co l
+  /\ List.length (gen_estimate_sequence co l) = List.length l /\ (forall d, gen_estimate_sequence co [d] = [co d]).
+Proof. intros. unfold gen_estimate_sequence, gen_cvx_estimate_sequence, C11_estimate_sequence. repeat split; try reflexivity. apply map_length. Qed.
+Print Assumptions gen_estimate_sequence_eq.
+
 (* ---- num_cvxpy_variable = the parameter count of the model, for every type string, dimension and outcome count *)
 Theorem gen_num_cvxpy_variable_eq : forall (t : string) (dim : Z) (m : option Z),
   gen_num_cvxpy_variable t dim m = C11_num_var t dim m.
